@@ -19,7 +19,7 @@ def tla_bool(b):
 
 
 def tla_seq(xs):
-    return "<<" + ", ".join(str(x) for x in xs) + ">>"
+    return "<<" + ", ".join(str(x) if not (isinstance(x, int) and x < 0) else "(0 - %d)" % -x for x in xs) + ">>"
 
 
 def supported_pack(pack) -> bool:
@@ -143,17 +143,9 @@ def loop_events(session) -> List[dict]:
     return out
 
 
-def run_model_session(cfg):
-    """Worker: a recorded plain-pack search; returns the universe, the loop trace."""
-    from .drivers import search_campaign as sc
-    from .session import Session
-    from . import instrument as ins
-
-    start, pack = sc.build(cfg)
-    prefix, pats, alph, st, pk, fl, sch, reverse = cfg
-    if not supported_pack(pack):
-        raise tlc.MachineryError("pack %s is outside the pack shape of Search.tla" % pk)
-    s = Session(start, pack, flavour=fl, schedule=sc.SCHEDULES[sch], reverse=reverse, record=("queue",))
+def _recorded_loop(s, fl, universe=None):
+    """Run a session with the sizes (stored keys, labels) after every queue hand-out recorded; returns (outcome, universe, events).
+    The universe is extracted from the pack unless one is given (table universes: the generated table itself)."""
     s.sizes = []
     # sizes after every queue hand-out: wrap the recorder's event sink
     orig_ev = s.q_rec._ev
@@ -194,10 +186,25 @@ def run_model_session(cfg):
     try:
         outcome, spec = s.run()
         fill()
-        u = extract(s)
+        u = universe if universe is not None else extract(s)
         events = loop_events(s)
     finally:
         s.close()
+    return outcome, u, events
+
+
+def run_model_session(cfg):
+    """Worker: a recorded plain-pack search; returns the universe, the loop trace."""
+    from .drivers import search_campaign as sc
+    from .session import Session
+    from . import instrument as ins
+
+    start, pack = sc.build(cfg)
+    prefix, pats, alph, st, pk, fl, sch, reverse = cfg
+    if not supported_pack(pack):
+        raise tlc.MachineryError("pack %s is outside the pack shape of Search.tla" % pk)
+    s = Session(start, pack, flavour=fl, schedule=sc.SCHEDULES[sch], reverse=reverse, record=("queue",))
+    outcome, u, events = _recorded_loop(s, fl)
     tid = sc.tid_of(cfg) + ("" if reverse or fl != "forest" else "|norev")
     return {"tid": tid, "universe": u, "events": events, "outcome": outcome, "sig": "pack=%s/flavour=%s" % (pk, fl)}
 
@@ -298,5 +305,61 @@ def campaign(run, tier, seed, want_mc=True, focus=None):
             run.add_tlc(r, "MC_Search all time-slicings, universe of " + "|".join(job["tid"].split("|")[1:6:2]))
             if r.status == "violated":
                 run.tlc_violation(r, "MC_Search/" + job["tid"].split("|")[1])
+            nmc += 1
+    return jobs, rejected, nmc
+
+
+# ---- universe G: generated rule tables realised as real classes / strategies (universes/tables.py) -------------------------
+def run_table_session(args):
+    """Worker: a recorded search over a generated table universe.  The universe given to TLC is the generated table itself."""
+    seed, fl, sch = args
+    from .drivers import search_campaign as sc
+    from .session import Session
+    from .universes import tables as T
+
+    u = T.generate(seed, "forest" if fl == "forest" else "base")
+    start, pack = T.realise(u, seed)
+    s = Session(start, pack, flavour=fl, schedule=sc.SCHEDULES[sch], reverse=u["reverse"] if fl == "forest" else True, record=("queue",))
+    table = {k: v for k, v in u.items() if not k.startswith("_")}
+    outcome, _, events = _recorded_loop(s, fl, universe=table)
+    # the table re-read from the pack (what extract() does for the word universe) must be the generated one: fixture self-check
+    return {"tid": "G|%d|%s|%s" % (seed, fl, sch), "universe": table, "events": events, "outcome": outcome if isinstance(outcome, str) else str(outcome),
+            "sig": "universe=G/flavour=%s" % fl}
+
+
+def table_campaign(run, tier, seed, n=None, want_mc=True):
+    """Recorded searches over generated table universes validated against Search.tla instantiated with the *generated* table,
+    and all time-slicings of a sample of those universes model-checked.  Returns (jobs, rejected, nmc)."""
+    import concurrent.futures
+    from .common import pmap
+
+    n = n or (60 if tier == "quick" else 600)
+    scheds = ("one", "three", "all", "mixed")
+    args = [(seed * 100000 + i, ("default", "forest", "forget")[i % 3] if i % 6 else "default", scheds[i % 4]) for i in range(n)]
+    jobs = pmap(run_table_session, args, procs=16, chunk=1)
+    with concurrent.futures.ThreadPoolExecutor(max_workers=12) as ex:
+        verdicts = list(ex.map(lambda ij: validate_loop(run, ij[1], "G%d" % ij[0]), list(enumerate(jobs))))
+    rejected = []
+    for job, v in zip(jobs, verdicts):
+        run.states += v.distinct
+        run.transitions += v.generated
+        run.traces += v.total
+        run.events += len(job["events"])
+        if len(job["events"]) >= 6:
+            run.nt("loop-G:" + job["tid"])
+        for r in v.rejects:
+            rejected.append((job, r))
+    run.tlc_runs.append({"run": "Trace_SearchLoop: %d recorded searches over generated table universes (universe G) validated step by step against Search.tla" % len(jobs),
+                         "accepted": sum(v.accepted for v in verdicts), "traces": len(jobs)})
+    nmc = 0
+    if want_mc:
+        pick = [j for j in jobs if j["tid"].split("|")[2] != "forget"][:: (4 if tier == "quick" else 3)][: (8 if tier == "quick" else 120)]
+        with concurrent.futures.ThreadPoolExecutor(max_workers=4) as ex:
+            results = list(ex.map(lambda ij: model_check_universe(run, ij[1]["universe"], 5000 + ij[0], 5 if tier == "quick" else 8), list(enumerate(pick))))
+        for job, r in zip(pick, results):
+            tlc.require_ok(r, "MC_Search " + job["tid"])
+            run.add_tlc(r, "MC_Search all time-slicings, generated universe " + job["tid"])
+            if r.status == "violated":
+                run.tlc_violation(r, "MC_Search/" + job["tid"])
             nmc += 1
     return jobs, rejected, nmc
